@@ -135,6 +135,17 @@ def _kani_unit(unit, tier, seed, pid=None):
         else:
             text, cuts, counter = U.gen_kani(unit)
             crate_dir = R.kani_crate(unit["name"], text, unit.get("deps_toml", ""))
+            # refactor tolerance: a free helper function of the same source files that the extracted text
+            # newly calls is pulled in automatically (it is then verified as part of its caller)
+            for _round in range(3):
+                missing = _missing_helpers(crate_dir, unit)
+                if not missing:
+                    break
+                unit = dict(unit, items=list(unit["items"]) + missing)
+                res.unit = unit
+                text, cuts, counter = U.gen_kani(unit)
+                counter["auto.followed_helper"] = counter.get("auto.followed_helper", 0) + len(missing)
+                crate_dir = R.kani_crate(unit["name"], text, unit.get("deps_toml", ""))
     except (rc.LostAnchor, B.Unsupported) as e:
         res.undecided.append("%s: extraction failed: %s" % (unit["name"], e))
         return res
@@ -209,6 +220,29 @@ def _kani_unit(unit, tier, seed, pid=None):
             shutil.rmtree(os.path.dirname(scratch_copy) if unit.get("scratch_parent") else scratch_copy, ignore_errors=True)
     res.wall = time.time() - t0
     return res
+
+
+def _missing_helpers(crate_dir, unit):
+    """cargo check of the generated crate; for every `cannot find function X` look for a top-level `fn X` in the unit's source files"""
+    env = dict(R.KANI_ENV, CARGO_TARGET_DIR=os.path.join(R.BUILD, "kani-target", unit["name"] + "-check"))
+    try:
+        p = subprocess.run(["cargo", "check", "--offline", "-q"], cwd=crate_dir, env=env, capture_output=True, text=True, timeout=300)
+    except Exception:
+        return []
+    names = set(re.findall(r"cannot find function `([A-Za-z_0-9]+)` in this scope", p.stderr))
+    have = set(it["path"] for it in unit["items"])
+    found = []
+    for n in sorted(names):
+        for f in sorted(set(it["file"] for it in unit["items"])):
+            try:
+                src, m = B.read_repo(f)
+                rc.find(src, "fn " + n, m)
+            except rc.LostAnchor:
+                continue
+            if "fn " + n not in have:
+                found.append({"file": f, "path": "fn " + n})
+            break
+    return found
 
 
 def _extract_playback(out, harness):
